@@ -38,6 +38,8 @@ pub enum Ty {
     UnixString,
     /// integer with inclusive range
     Int(i128, i128),
+    /// user type (shapes.rs, `echo_type!`): a possibly empty run of ASCII letters and digits
+    Word,
 }
 
 #[derive(Clone, Copy, PartialEq, Debug)]
@@ -253,6 +255,13 @@ fn value_of(ty: Ty, tok: &[u8]) -> Val {
             Some(i) => Val::Good(V::I(i)),
             None => Val::Bad,
         },
+        Ty::Word => {
+            if tok.iter().all(u8::is_ascii_alphanumeric) {
+                Val::Good(V::B(tok.to_vec()))
+            } else {
+                Val::Bad
+            }
+        }
     }
 }
 
@@ -472,6 +481,14 @@ fn domain(ty: Ty, dom: &[Tok], after_option: bool, own_lit: Option<&str>, thorou
             if after_option && min < 0 {
                 push_unique(&mut v, b"-5");
                 push_unique(&mut v, min.to_string().as_bytes());
+            }
+            for d in dom {
+                push_unique(&mut v, d);
+            }
+        }
+        Ty::Word => {
+            for t in [&b"x"[..], b"", L200, b"7", b"12x"] {
+                push_unique(&mut v, t);
             }
             for d in dom {
                 push_unique(&mut v, d);
@@ -880,6 +897,9 @@ fn alphabet(g: &Grammar) -> Vec<Vec<u8>> {
     if signed {
         push_unique(&mut v, b"-5");
     }
+    if lv.iter().any(|l| l.opts.iter().any(|o| o.ty == Ty::Word) || l.pos.iter().any(|p| p.ty == Ty::Word)) {
+        push_unique(&mut v, "a€".as_bytes());
+    }
     for t in [&b"\xff\xfe"[..], L200] {
         push_unique(&mut v, t);
     }
@@ -1076,6 +1096,8 @@ enum Work {
     Grammar(usize, usize, usize),
     /// shape: sweep 3, every token length across the fixed-size buffers of the error path
     Ladder(usize),
+    /// sweep 4: index into CAUSE_WAYS
+    Cause(usize),
 }
 
 /// Sweep 3: one token of EVERY length 0..=max (plain, option-like, multi-byte, Debug-escaped bytes) alone, after each
@@ -1123,6 +1145,19 @@ fn ladder_chunk(sh: &Shape, helps: &[String], thorough: bool) -> Report {
             }
             toks.push(vec![0xff; len]);
         }
+        // a run of letters ending in ONE character of 1, 2, 3, 4 bytes (alone at the end / followed by a tail): error
+        // types that echo "text before + offending char" put that char at every byte offset of the cause buffer,
+        // as a `char` format argument (write_char), not as part of a str
+        for ch in ["!", "é", "€", "😀"] {
+            for tail in ["", "zz"] {
+                if ch.len() + tail.len() <= len {
+                    let mut t = vec![b'a'; len - ch.len() - tail.len()];
+                    t.extend_from_slice(ch.as_bytes());
+                    t.extend_from_slice(tail.as_bytes());
+                    toks.push(t);
+                }
+            }
+        }
         for t in &toks {
             for pre in &prefixes {
                 let mut list: Vec<&'static UnixStr> = pre.iter().map(|p| intern(p)).collect();
@@ -1130,6 +1165,122 @@ fn ladder_chunk(sh: &Shape, helps: &[String], thorough: bool) -> Report {
                 check_grammar(sh, helps, &list, &mut r);
             }
         }
+    }
+    r
+}
+
+// ---------------------------------------------------------------------------
+// sweep 4: the public constructors of the error value, driven directly.  Every way text can
+// reach the fixed-size cause buffer (one str, str pieces, a `char` argument with `{}` / `{:?}` /
+// padding, `Formatter::write_char`, nested `format_args!`), with the text before the character
+// ending at EVERY byte offset around the capacity.
+
+use tiny_std::unix::cli::ArgParseError;
+
+struct ViaWriteChar(char);
+impl std::fmt::Display for ViaWriteChar {
+    fn fmt(&self, f: &mut std::fmt::Formatter<'_>) -> std::fmt::Result {
+        use std::fmt::Write;
+        f.write_char(self.0)
+    }
+}
+
+const CAUSE_WAYS: &[&str] =
+    &["str", "fmt-one-str", "fmt-char", "fmt-char-debug", "fmt-pieces", "fmt-nested", "fmt-write_char", "fmt-char-padded", "fmt-char-first", "fmt-two-chars"];
+const CAUSE_CHARS: &[char] = &['!', 'é', '€', '😀', '\n', '\u{301}'];
+const CAUSE_SUFFIXES: &[&str] = &["", "z", "zzzz"];
+
+fn cause_prefix(pat: &str, k: usize) -> String {
+    let mut s = String::new();
+    if pat.len() > 1 {
+        while s.len() + pat.len() <= k {
+            s.push_str(pat);
+        }
+    }
+    while s.len() < k {
+        s.insert(0, 'a');
+    }
+    s
+}
+
+fn check_cause(way: &str, pat: &str, k: usize, c: char, suffix: &str, r: &mut Report) {
+    r.eval();
+    r.nontrivial_unique();
+    let (help, help_text) = shapes::cause_help();
+    let p = cause_prefix(pat, k);
+    let p = p.as_str();
+    let (p1, p2) = p.split_at(p.char_indices().map(|x| x.0).nth(p.chars().count() / 2).unwrap_or(0));
+    macro_rules! both {
+        ($($a:tt)*) => {
+            (format!($($a)*), catch(|| ArgParseError::new_cause_fmt(help, format_args!($($a)*))))
+        };
+    }
+    let (expected, made) = match way {
+        "str" => {
+            let s = format!("{p}{c}{suffix}");
+            let res = catch(|| ArgParseError::new_cause_str(help, &s));
+            (s, res)
+        }
+        "fmt-one-str" => {
+            let s = format!("{p}{c}{suffix}");
+            both!("{s}")
+        }
+        "fmt-char" => both!("{p}{c}{suffix}"),
+        "fmt-char-debug" => both!("{p}{c:?}{suffix}"),
+        "fmt-pieces" => both!("{p1}{p2}{c}{suffix}"),
+        "fmt-nested" => both!("{}{suffix}", format_args!("{}{c}", format_args!("{p1}{}", p2))),
+        "fmt-write_char" => both!("{p}{}{suffix}", ViaWriteChar(c)),
+        "fmt-char-padded" => both!("{p}{c:>3}{c:*<2}{suffix}"),
+        "fmt-char-first" => both!("{c}{p}{suffix}"),
+        "fmt-two-chars" => both!("{p}{c}{c}{suffix}"),
+        _ => panic!("unknown way {way}"),
+    };
+    let op = if way == "str" { "new_cause_str" } else { "new_cause_fmt" };
+    let case = json!({"sweep": "cause", "way": way, "prefix": pat, "prefix_len": k, "ch": c.to_string(), "suffix": suffix});
+    let what = format!("{op} [{way}] with {k} bytes of {pat:?} before {c:?} and {suffix:?} after it ({} bytes in all)", expected.len());
+    let e = match made {
+        Err(pn) => {
+            r.outcome("cause-panic");
+            r.violation(&format!("C20:{op}:panic"), format!("{what} panicked: {pn}"), case);
+            return;
+        }
+        Ok(Ok(e)) | Ok(Err(e)) => e,
+    };
+    let text = catch(|| e.to_string());
+    let debug_ok = catch(|| format!("{e:?}")).is_ok();
+    match text {
+        Err(pn) => r.violation(&format!("C20:{op}:error-render-panic"), format!("{what}: Display of the error panicked: {pn}"), case.clone()),
+        Ok(t) => {
+            if !t.starts_with(help_text.as_str()) {
+                r.violation(&format!("C20:{op}:error-without-help"), format!("{what}: rendered error does not start with the help text: {t:?}"), case.clone());
+            } else if t[help_text.len()..] == expected {
+                r.outcome(if expected.len() <= 128 { "cause-exact" } else { "cause-exact-beyond-128" });
+            } else if t.contains("too many characters to write into output buffer") {
+                r.outcome(if expected.len() <= 128 { "cause-fallback-although-short" } else { "cause-overflow-fallback" });
+            } else {
+                r.outcome("cause-other-text");
+            }
+        }
+    }
+    if !debug_ok {
+        r.violation(&format!("C20:{op}:error-render-panic"), format!("{what}: Debug of the error panicked"), case);
+    }
+}
+
+fn cause_chunk(way: &str, thorough: bool) -> Report {
+    let mut r = Report::new();
+    let max = if thorough { 300 } else { 140 };
+    for k in 0..=max {
+        for pat in ["a", "é", "€"] {
+            for &c in CAUSE_CHARS {
+                for suffix in CAUSE_SUFFIXES {
+                    check_cause(way, pat, k, c, suffix, &mut r);
+                }
+            }
+        }
+    }
+    if way == "fmt-char" {
+        r.sample(json!({"sweep": "cause", "way": way, "prefix": "a", "prefix_len": 126, "ch": "€", "suffix": ""}));
     }
     r
 }
@@ -1177,7 +1328,11 @@ fn c20(args: &Args) -> Report {
             work.push(Work::Ladder(si));
         }
     }
+    for w in 0..CAUSE_WAYS.len() {
+        work.push(Work::Cause(w));
+    }
     let mut r = par_items(work.len(), args.seed, |i| match work[i] {
+        Work::Cause(w) => cause_chunk(CAUSE_WAYS[w], args.thorough),
         Work::Roundtrip(si, c, n) => roundtrip_chunk(&shapes[si], &helps[si], args.thorough, c, n),
         Work::Grammar(si, len, f) => grammar_chunk(&shapes[si], &helps[si], len, f),
         Work::Ladder(si) => ladder_chunk(&shapes[si], &helps[si], args.thorough),
@@ -1195,18 +1350,37 @@ fn c20(args: &Args) -> Report {
         text of a struct of the shape (of the addressed struct for a help request). Each (assignment, order, alias form) and each list is generated once; \
         every case is non-trivial (it is parsed by the derived code). \
         Sweep 3: one token of every length 0..=300 (thorough 1100) in four byte patterns, alone / in value position after each option literal / after a valid \
-        token, same oracle: straddles the fixed 128-byte cause buffer of the error path at every offset."
+        token, same oracle: straddles the fixed 128-byte cause buffer of the error path at every offset (the family has field types whose FromStr::Err \
+        echoes the text before an offending character and the character itself through {}, {:?}, Formatter::write_char, nested format_args! and padding). \
+        Sweep 4: ArgParseError::new_cause_str / new_cause_fmt called directly, every way of writing (one str, pieces, char argument plain / Debug / padded / \
+        first / doubled, write_char, nested arguments) x prefix of every byte length 0..=140 (thorough 300) in 1-, 2- and 3-byte characters x six \
+        characters of 1..4 bytes x three suffixes: no panic, the error renders and starts with the help text."
         .into();
     r.bound("shapes", shapes.len());
     r.bound("assignments_per_shape", Value::Object(space_sizes));
     r.bound("grammar_alphabet_size", Value::Object(alpha_sizes));
     r.bound("grammar_max_len", Value::Object(lens));
     r.bound("max_repeats", 2);
+    r.bound("ladder_max_token_len", if args.thorough { 1100 } else { 300 });
+    r.bound("cause_prefix_max_len", if args.thorough { 300 } else { 140 });
+    r.bound("cause_ways", CAUSE_WAYS.len());
     r.bound("value_domains", if args.thorough { "full ladder per type" } else { "2-9 declared values per field" });
     r
 }
 
 fn replay(v: &Value, r: &mut Report) {
+    if v["sweep"].as_str() == Some("cause") {
+        let c = v["ch"].as_str().and_then(|s| s.chars().next()).unwrap_or('?');
+        let (way, pat, k, suffix) =
+            (v["way"].as_str().unwrap_or("fmt-char"), v["prefix"].as_str().unwrap_or("a"), v["prefix_len"].as_u64().unwrap_or(0) as usize, v["suffix"].as_str().unwrap_or(""));
+        println!("replaying cause way={way} prefix={pat:?}x{k} ch={c:?} suffix={suffix:?}");
+        check_cause(way, pat, k, c, suffix, r);
+        println!("outcomes: {:?}", r.outcomes);
+        for v in r.violations.values() {
+            println!("VIOLATED {}: {}", v.key, v.desc);
+        }
+        return;
+    }
     let shapes = shapes::all();
     let name = v["shape"].as_str().unwrap_or("");
     let Some(sh) = shapes.iter().find(|s| s.name == name) else { panic!("unknown shape {name}") };
